@@ -253,7 +253,7 @@ class Fn:
             elif k == 'CXXThisExpr':
                 return ('this', tuple(reversed(path)))
             elif k == 'DeclRefExpr':
-                al = self.ref_aliases().get(n.get('did')) if n.get('dk') == 'local' else None
+                al = self.ref_aliases().get(n.get('did')) if n.get('dk') in ('local', 'binding') else None
                 if al is not None and len(path) < 40:
                     kind, target = al
                     if kind == 'elem':
@@ -301,10 +301,15 @@ class Fn:
                     for d in s.get('decls', []):
                         if not d.get('ref'):
                             continue
+                        al = None
                         if d['did'] in loopvars:
-                            out[d['did']] = ('elem', loopvars[d['did']])
+                            al = ('elem', loopvars[d['did']])
                         elif 'init' in d and d['init'] in self.stmts:
-                            out[d['did']] = ('ref', self.stmts[d['init']])
+                            al = ('ref', self.stmts[d['init']])
+                        if al is not None:
+                            out[d['did']] = al
+                            for b in d.get('bindings', []):
+                                out[b['did']] = al      # structured binding of a reference: part of the same object
             self._refal = out
         return self._refal
 
